@@ -119,6 +119,15 @@ func genC16(o *Out, rng *rand.Rand, tier string) {
 			cur = r
 		}
 		chain := cur
+		if top, ok := chain.(*dhcpv6.RelayMessage); ok && rng.Intn(3) == 0 {
+			// hop counts as relays in the field write them, not as EncapsulateRelay would: equal at two levels, out of
+			// step with the depth, at the limit - the chain is what its nesting says, not what its counters say
+			for cur := top; cur != nil; {
+				cur.HopCount = uint8(pick(rng, 0, 0, 1, 3, 7, 31, 32, 255, rng.Intn(256)))
+				next, _ := cur.Options.RelayMessage().(*dhcpv6.RelayMessage)
+				cur = next
+			}
+		}
 		if rng.Intn(2) == 0 {
 			// after a trip over the wire: the chain must come back as it was sent
 			before := chain
